@@ -67,9 +67,9 @@ type verifH264Group struct {
 // verifH264Model is the list model of the payloader: AUD/filler dropped,
 // parameter sets held and sent as one STAP-A before the next ordinary unit.
 type verifH264Model struct {
-	stapA            bool
-	sps, pps         *verifNAL
-	groups           []verifH264Group
+	stapA    bool
+	sps, pps *verifNAL
+	groups   []verifH264Group
 }
 
 func (m *verifH264Model) push(u verifNAL) {
@@ -104,13 +104,36 @@ var verifC10Menu = [][2]int{ // {class, size}; class 4 = SPS+PPS pair (size = SP
 	{0, 2}, {0, 3}, {0, 6}, {4, 2}, {4, 4}, {3, 2}, {0, 9}, {0, 12},
 }
 
+// fixed item sequences for the dedicated harnesses (nil = free choice from the menu)
+var verifC10Fixed [][2]int
+
+// SPS+PPS, then two ordinary units, split over calls in every way: state kept by
+// the payloader after the parameter sets were flushed must not leak into later units
+func VerifC10AfterKeyFrame() {
+	verifC10Fixed = [][2]int{{4, 2}, {0, 2}, {0, 3}}
+	VerifC10RoundTrip()
+	verifC10Fixed = nil
+}
+
+// parameter sets followed by an AUD or filler and then a unit
+func VerifC10DroppedAfterKeyFrame() {
+	verifC10Fixed = [][2]int{{4, 2}, {3, 2}, {0, 2}}
+	VerifC10RoundTrip()
+	verifC10Fixed = nil
+}
+
 func VerifC10RoundTrip() {
 	mtu := verifU16("mtu")
 	verifAssume(mtu >= 3)
 	pay := &H264Payloader{DisableStapA: verifCase("disableStapA", 0, 1) == 1}
 	model := &verifH264Model{stapA: !pay.DisableStapA}
 	dep := &H264Packet{IsAVC: verifCase("avc", 0, verifBound("C10.avc")) == 1}
-	nitems := verifCase("items", 1, verifBound("C10.items"))
+	nitems := 0
+	if verifC10Fixed != nil {
+		nitems = len(verifC10Fixed)
+	} else {
+		nitems = verifCase("items", 1, verifBound("C10.items"))
+	}
 	split := verifCase("firstcall", 1, nitems) // items in the first call; the rest go to a second call
 	var payloads [][]byte
 	var stream []byte
@@ -125,8 +148,14 @@ func VerifC10RoundTrip() {
 			flush()
 			verifCover("C10.two-calls")
 		}
-		m := verifC10Menu[verifCase("item", 0, verifBound("C10.menu")-1)]
-		four := verifCase("startcode4", 0, 1) == 1
+		var m [2]int
+		four := false
+		if verifC10Fixed != nil {
+			m = verifC10Fixed[it]
+		} else {
+			m = verifC10Menu[verifCase("item", 0, verifBound("C10.menu")-1)]
+			four = verifCase("startcode4", 0, 1) == 1
+		}
 		if m[0] == 4 {
 			sps, pps := verifH264Unit(1, m[1]), verifH264Unit(2, 2)
 			stream = verifAnnexB(stream, sps, four)
